@@ -42,6 +42,10 @@ def classify(tags, fields, typ, a_line, b_line, helpers_match_models=True):
         return 'omitempty-emptiness:unsafe-vs-safe'
     if any(f.startswith('<missing') for f in fs):
         return 'variant-stopped-early'
+    if typ.startswith('long:'):
+        # fields are <shape>.<destination>: dNsL = destination length N, stream array of L (dNmL: stream map of L entries);
+        # pa = *[N]E, vs/vc = []E by value, sf = [N]E struct field, ps = *[]E (can grow)
+        return 'variant-diff:stream-vs-fixed-destination:' + '+'.join(sorted(set(f.split('.', 1)[1] if '.' in f else f for f in fs)))
     return 'variant-diff:' + '+'.join(sorted(fs))
 
 
@@ -211,6 +215,6 @@ def main(chk):
 MANIFEST = {
     'category': 'proof',
     'technique': 'Coq proof on models of the safe/unsafe helper pair and of unsafe field addressing (widths translated from the source on every run; each tied to its build by vm_compute correspondence) + differential run of all 8 build-tag variants on one seeded stream + regeneration diff of all generated files',
-    'text': 'Proved: the reflect-based and the memory-compare implementations of the omitempty emptiness test agree on every value inside an explicit structural guard, in both modes (C05_isempty_agree), and the guard is tight (C05_isempty_refuted: one witness per excluded class; that divergence is finding F05-1). Each model is run against the isEmptyValue of its own build. C05_field_addr / C05_field_widths: with the widths of structFieldInfoNode.offset and of the conversions that fill it, read from the current source by the translator, the address the unsafe build computes for a struct field equals the one reflect computes, for every offset below 2^32 (C05_field_addr_16_refuted: false for the 16-bit field of the pinned tree, finding F01-3); the stored offsets are compared with the offsets reflect reports and with the model on struct types with fields up to 16 MB in. Whole-library variant agreement is decided differentially: the harness is built under all eight tag sets, run on one seeded stream of (format, options, type, value; typed, schema-less, pre-populated, same-shape, interface-held, narrowed and array-shaped destinations; truncated, bit-flipped, marker-substituted and all 256 one-byte inputs) and compared field by field; the in-tree generator is re-run and every generated file compared byte for byte. Partial: no theorem covers the monomorphiser or whole-library variant equivalence.',
+    'text': 'Proved: the reflect-based and the memory-compare implementations of the omitempty emptiness test agree on every value inside an explicit structural guard, in both modes (C05_isempty_agree), and the guard is tight (C05_isempty_refuted: one witness per excluded class; that divergence is finding F05-1). Each model is run against the isEmptyValue of its own build. C05_field_addr / C05_field_widths: with the widths of structFieldInfoNode.offset and of the conversions that fill it, read from the current source by the translator, the address the unsafe build computes for a struct field equals the one reflect computes, for every offset below 2^32 (C05_field_addr_16_refuted: false for the 16-bit field of the pinned tree, finding F01-3); the stored offsets are compared with the offsets reflect reports and with the model on struct types with fields up to 16 MB in. Whole-library variant agreement is decided differentially: the harness is built under all eight tag sets, run on one seeded stream of (format, options, type, value; typed, schema-less, pre-populated, same-shape, interface-held, narrowed, array-shaped and one-field-short destinations; the encoding embedded as Raw; truncated, bit-flipped, marker-substituted and all 256 one-byte inputs) in which every boolean field of DecodeOptions, EncodeOptions, BasicHandle and the format handle (listed by reflection) is drawn, followed by two seed-independent streams - corner option vectors per format (none, each boolean alone, all but each one, all, all decode, all encode; Canonical off on single-entry maps) on a fixed struct of fast-path and reflection-route fields, and stream arrays/maps longer, equal and shorter than a destination that cannot grow ([N]E by pointer and as a field, []E by value) x length announced or not (json, cbor IndefiniteLength) x ErrorIfNoArrayExpand x 21 element types with and without a generated fast-path - and compared field by field (the evidence distribution counts the cases run with each option on); the in-tree generator is re-run and every generated file compared byte for byte. Partial: no theorem covers the monomorphiser or whole-library variant equivalence.',
     'note': 'Trusted: Coq kernel; hand-written models of isEmptyValue (both builds; correspondence-checked); the differential harness and its deterministic value printer; the in-tree generator is executed, not modelled. Not proved: semantic preservation of gen_mono.go, fast-path templates vs reflection path (compared only on the explored stream).',
 }
